@@ -133,6 +133,17 @@ func (r *EntityLocal) Features() []api.FeatureLocalInterface {
 	return r.features
 }
 
+// the data returned by DataCopy shares its lists with the stored data and with
+// all copies handed out earlier, so they have to be cloned before being modified
+func cloneUseCaseLists(data *model.NodeManagementUseCaseDataType) {
+	useCaseInformation := make([]model.UseCaseInformationDataType, len(data.UseCaseInformation))
+	for index, item := range data.UseCaseInformation {
+		item.UseCaseSupport = append([]model.UseCaseSupportType(nil), item.UseCaseSupport...)
+		useCaseInformation[index] = item
+	}
+	data.UseCaseInformation = useCaseInformation
+}
+
 // add a new usecase
 func (r *EntityLocal) AddUseCaseSupport(
 	actor model.UseCaseActorType,
@@ -157,6 +168,7 @@ func (r *EntityLocal) AddUseCaseSupport(
 		Entity: r.address.Entity,
 	}
 
+	cloneUseCaseLists(data)
 	data.AddUseCaseSupport(address, actor, useCaseName, useCaseVersion, useCaseDocumemtSubRevision, useCaseAvailable, scenarios)
 
 	nodeMgmt.SetData(model.FunctionTypeNodeManagementUseCaseData, data)
@@ -200,6 +212,7 @@ func (r *EntityLocal) SetUseCaseAvailability(
 		Entity: r.address.Entity,
 	}
 
+	cloneUseCaseLists(data)
 	data.SetAvailability(address, actor, useCaseName, available)
 
 	nodeMgmt.SetData(model.FunctionTypeNodeManagementUseCaseData, data)
@@ -225,6 +238,7 @@ func (r *EntityLocal) RemoveUseCaseSupport(
 		Entity: r.address.Entity,
 	}
 
+	cloneUseCaseLists(data)
 	data.RemoveUseCaseSupport(address, actor, useCaseName)
 
 	nodeMgmt.SetData(model.FunctionTypeNodeManagementUseCaseData, data)
@@ -247,6 +261,7 @@ func (r *EntityLocal) RemoveAllUseCaseSupports() {
 		Entity: r.address.Entity,
 	}
 
+	cloneUseCaseLists(data)
 	data.RemoveUseCaseDataForAddress(address)
 
 	nodeMgmt.SetData(model.FunctionTypeNodeManagementUseCaseData, data)
